@@ -8,6 +8,8 @@ import TinsModel.Basic.Seq32
     by `cyclicSucc` (least key greater than `k`, else the least key).
   * `total_buffered_bytes_` is `uint32_t`: every update wraps.
   * A chunk that has been `std::move`d from counts 0 bytes in `erase_iterator`.
+  * `added_some` is set only when a NON-EMPTY chunk is appended (the model follows the commit
+    "fix: DataTracker::process_payload reports new data for a retransmission that adds none").
 -/
 namespace Tins.DT
 
@@ -86,7 +88,8 @@ def drain : Nat → Tracker → Option Nat → Bool → Tracker × Bool
           else
             let t1 := { t with payload := t.payload ++ chunk, seq := wrap32 (t.seq + chunk.length) }
             let (t2, it) := eraseIterator t1 key chunk.length
-            drain fuel t2 it true
+            -- `if (!iter->second.empty()) added_some = true;`
+            drain fuel t2 it (added || !chunk.isEmpty)
         else (t, added)
 
 /-- `DataTracker::process_payload(seq, payload)` -/
@@ -108,5 +111,11 @@ def advanceSequence (t : Tracker) (seq : Nat) : Tracker :=
     let dropped := t.buf.filter (fun p => seqCompare p.1 seq ≤ 0)
     { t with seq := seq, buf := keep,
              total := dropped.foldl (fun tot p => sub32 tot (wrap32 p.2.length)) t.total }
+
+/-- keys of the map, in list order -/
+def keys (m : Chunks) : List Nat := m.map (·.1)
+
+/-- the bytes actually held by the map -/
+def sumSizes (m : Chunks) : Nat := (m.map (fun c => c.2.length)).sum
 
 end Tins.DT
